@@ -678,9 +678,9 @@ fn s(v: &[&str]) -> Vec<String> {
     v.iter().map(|x| x.to_string()).collect()
 }
 
-/// Preparation: a plain-git "remote" `o` (a <- b = main, a <- e = feat), then the jj repo `d`
-/// that fetched it (main@origin = trunk, feat@origin untracked) with local commits
-/// b <- c (bookmark lb) <- w (= @, root 0) and b <- d2 (tag v1). Root 1: @ moved onto the
+/// Preparation: a plain-git "remote" `o` (a <- b = main <- c = lb, b <- d2 = tag v1, a <- e =
+/// feat), then the jj repo `d` that imported it (main@origin = trunk, feat@origin untracked,
+/// local bookmark lb, tag v1) with the working-copy commit w on top of c (root 0). Root 1: @ moved onto the
 /// tagged commit d2 with the explicit override, so the working-copy commit is immutable under
 /// the default and the tags() configurations.
 fn prep_steps(root: usize) -> Vec<LitStep> {
@@ -701,24 +701,45 @@ fn prep_steps(root: usize) -> Vec<LitStep> {
         });
     };
     let w = |ws: &str, path: &str, c: &str| LitEdit { ws: ws.into(), path: path.into(), content: Some(c.into()) };
+    // the remote, built with plain git (cheap): a <- b (main) <- c (lb), b <- d2 (tag v1), a <- e (feat)
     push("git", ".", vec![], &["init", "-q", "-b", "main", "o"], false);
     push("git", "o", vec![w("o", "f", "a0\n")], &["add", "-A"], false);
     push("git", "o", vec![], &["commit", "-q", "-m", "a"], false);
     push("git", "o", vec![w("o", "f", "b0\n")], &["commit", "-q", "-a", "-m", "b"], false);
-    push("git", "o", vec![], &["checkout", "-q", "-b", "feat", "HEAD~1"], false);
+    push("git", "o", vec![], &["checkout", "-q", "-b", "lb"], false);
+    push("git", "o", vec![w("o", "f", "c0\n")], &["commit", "-q", "-a", "-m", "c"], false);
+    push("git", "o", vec![], &["checkout", "-q", "-b", "tagged", "main"], false);
+    push("git", "o", vec![w("o", "g", "d0\n")], &["add", "-A"], false);
+    push("git", "o", vec![], &["commit", "-q", "-m", "d2"], false);
+    push("git", "o", vec![], &["tag", "v1"], false);
+    push("git", "o", vec![], &["checkout", "-q", "-b", "feat", "main~1"], false);
     push("git", "o", vec![w("o", "e", "e0\n")], &["add", "-A"], false);
     push("git", "o", vec![], &["commit", "-q", "-m", "e"], false);
     push("git", "o", vec![], &["checkout", "-q", "main"], false);
     push("jj", ".", vec![], &["git", "init", "--no-colocate", "d"], false);
-    push("jj", "d", vec![], &["git", "remote", "add", "origin", "../o"], false);
     // `jj git fetch` needs git >= 2.41 (the sandbox has 2.39): fetch with plain git into the
-    // backing repository through the remote jj configured, then let jj import the refs
-    push("git", "d", vec![], &["--git-dir", ".jj/repo/store/git", "fetch", "-q", "origin"], false);
+    // backing repository (main and feat as remote-tracking refs of `origin`, lb as a local
+    // branch, the tag), then let jj import the refs
+    push("git", "d", vec![], &["--git-dir", ".jj/repo/store/git", "remote", "add", "origin", "../o"], false);
+    push(
+        "git",
+        "d",
+        vec![],
+        &[
+            "--git-dir",
+            ".jj/repo/store/git",
+            "fetch",
+            "-q",
+            "--no-tags",
+            "../o",
+            "refs/heads/main:refs/remotes/origin/main",
+            "refs/heads/feat:refs/remotes/origin/feat",
+            "refs/heads/lb:refs/heads/lb",
+            "refs/tags/v1:refs/tags/v1",
+        ],
+        false,
+    );
     push("jj", "d", vec![], &["git", "import"], false);
-    push("jj", "d", vec![], &["new", "main@origin", "-m", "c"], false);
-    push("jj", "d", vec![w("d", "f", "c0\n")], &["bookmark", "create", "lb", "-r", "@"], false);
-    push("jj", "d", vec![], &["new", "main@origin", "-m", "d2"], false);
-    push("jj", "d", vec![w("d", "g", "d0\n")], &["tag", "set", "v1", "-r", "@"], false);
     push("jj", "d", vec![], &["new", "lb", "-m", "w"], false);
     if root == 1 {
         push("jj", "d", vec![w("d", "f", "w0\n")], &["--ignore-immutable", "edit", "v1"], true);
@@ -1294,7 +1315,7 @@ fn main() {
     let wall_cap = std::env::var("VERIF_WALL_CAP_S")
         .ok()
         .and_then(|v| v.parse::<f64>().ok())
-        .unwrap_or(ctx.pick(40.0, 1500.0));
+        .unwrap_or(ctx.pick(35.0, 1500.0));
     let capped = AtomicBool::new(false);
     let skipped = AtomicU64::new(0);
     let start = Instant::now();
@@ -1351,6 +1372,8 @@ fn main() {
         }
     }
 
+    // the wall-clock budget of the search starts when the roots are prepared
+    let start = Instant::now();
     let step = |h: &[Act]| -> Option<bfs::StepResult<Act>> {
         if h.is_empty() {
             return Some(bfs::StepResult { key: "root".into(), actions: (0..phases.len()).map(Act::Init).collect() });
